@@ -113,6 +113,17 @@ fn variants(s: &Sprite, plan: &Plan, enc: &Encoded, t: &mut Tape) -> Vec<(&'stat
     }
     // colour profile chunk: ICC, or any type with the fixed-gamma flag, at every chunk position
     let pieces = super::robust::to_pieces(enc);
+    // a Tags chunk carrying an unknown direction in a frame after the first (where a reader may ignore tags)
+    for fi in 1..pieces.frames.len() {
+        for dir in [3u8, 255] {
+            let mut p = pieces.clone();
+            let tg = vec![Tag { from: 0, to: 0, dir: 0, repeat: 0, name: "ok".into() }, Tag { from: 0, to: 0, dir, repeat: 0, name: "late".into() }];
+            let c = finish_chunk(tags_chunk(&tg, &mut None), 0, &mut Rng(1)).bytes;
+            let pos = (fi * 7 + dir as usize) % (p.frames[fi].1.len() + 1);
+            p.frames[fi].1.insert(pos, c);
+            v.push(("animation-direction", format!("tags chunk in frame {} position {} direction {}", fi, pos, dir), super::robust::assemble(&p, true)));
+        }
+    }
     for (fi, (_, chunks)) in pieces.frames.iter().enumerate() {
         for pos in 0..=chunks.len() {
             // a chunk placed between an entity and its user data would also be "ignorable" - fine
